@@ -320,3 +320,54 @@ func VerifC13PendingQueue() {
 	vstub.Assert(len(view) == len(got), "C13 the reloaded view shows the reloaded log")
 	_ = wantHeads
 }
+
+// VerifC13SaveFault: the ERROR paths of SaveSnapshot.  A snapshot of T entries is
+// saved, the log grows, and a second save runs while a storage write fails (the
+// cache write of the snapshot path, of the queue, or the file itself).  Saving
+// either reports the error or - if it reports success - a fresh instance loads
+// exactly the database held at the time of that save (never the stale first
+// snapshot, never nothing).
+func VerifC13SaveFault() {
+	t := vstub.Param("T", 2)
+	blocks := vstub.NewBlocks(nil)
+	a, envA := c13Open("a", blocks, nil, nil)
+	if a == nil {
+		return
+	}
+	ctx := context.Background()
+	addN(&a.BaseStore, t, 'a')
+	if _, err := SaveSnapshot(ctx, a); err != nil {
+		vstub.Fail("C13 first SaveSnapshot failed")
+		return
+	}
+	addN(&a.BaseStore, 1, 'n')
+	want := hashesOf(&a.BaseStore)
+	switch vstub.NdChoice("fault", 3) {
+	case 0:
+		vstub.Cover("no-fault")
+	case 1:
+		envA.Cache.FailPut = "/snapshot"
+		vstub.Cover("snapshot-key-write-fails")
+	case 2:
+		envA.Cache.FailPut = "/queue"
+		vstub.Cover("queue-key-write-fails")
+	}
+	_, err := SaveSnapshot(ctx, a)
+	envA.Cache.FailPut = ""
+	if err != nil {
+		vstub.Cover("save-refused")
+		return // saving may fail, but then it must say so
+	}
+	vstub.Cover("saved")
+	r, _ := c13Open("a", blocks, envA.Cache, envA.IPFS.Files)
+	if r == nil {
+		return
+	}
+	lerr := r.LoadFromSnapshot(ctx)
+	vstub.WaitIdle()
+	vstub.Assert(lerr == nil, "C13 a save that reported success can be loaded")
+	if lerr != nil {
+		return
+	}
+	vstub.Assert(vstubodb.SameStrings(hashesOf(&r.BaseStore), want), "C13 a save that reported success reloads to the database held when it was saved (not to an earlier snapshot)")
+}
